@@ -18,7 +18,8 @@ AllForms == { [vals |-> v, files |-> f] : v \in ValSeqs, f \in FileSeqs } \ { [v
 \* the histories use a small sub-menu (the life cycle only depends on which files are big)
 HistForms == { [vals |-> <<<<"a", "x">>>>, files |-> <<>>],
                [vals |-> <<<<"a", "x">>>>, files |-> <<<<"up", "f.txt", "big">>>>],
-               [vals |-> <<>>, files |-> <<<<"up", "f.txt", "small">>, <<"other", "g h.bin", "big">>>>] }
+               [vals |-> <<>>, files |-> <<<<"up", "f.txt", "small">>, <<"other", "g h.bin", "big">>>>],
+               [vals |-> <<<<"b", "">>>>, files |-> <<<<"up", "f.txt", "huge">>>>] }
 
 ASSUME ndJsonSerialize("forms.ndjson", SetToSeq(AllForms))
 
